@@ -308,10 +308,39 @@ def _valid_triples(rng, tier):
         n = rng.choice([20, 32]) if ver == 0 else rng.randint(2, 40)
         hrp = "".join(chr(rng.choice(list(range(33, 65)) + list(range(91, 127)))) for _ in range(rng.randint(1, 12)))
         yield (hrp, ver, bytes(rng.getrandbits(8) for _ in range(n)))
+    for t in letter_free_triples():     # no cased character anywhere: str.islower() and str.isupper() are both False (seed C11-d1)
+        yield t
     # longest allowed: len(hrp) + 1 + 1 + ceil(8n/5) + 6 <= 90
     yield ("h" * 18, 1, bytes(40))
     yield ("h" * 19, 1, bytes(40))      # 91 characters: over the limit
     yield ("h" * 83, 0, bytes(0))       # hrp of 83
+
+
+_LETTER_FREE = None
+
+
+def letter_free_triples():
+    """valid (hrp, version, program) whose address contains no letter at all: the hrp is made of digits/punctuation, the
+    version, every 5-bit group of the program and all six checksum symbols map to digit characters of the Bech32 alphabet
+    (about one candidate in 2000 has an all-digit checksum; found by a deterministic search, ~1 s, cached)"""
+    global _LETTER_FREE
+    if _LETTER_FREE is None:
+        r = random.Random("C11/letter-free")
+        digit_syms = [i for i, c in enumerate(B32) if c.isdigit()]
+        found = []
+        tries = 0
+        while len(found) < 8 and tries < 400000:
+            tries += 1
+            hrp = r.choice(["2", "42", "?", "7-7", "0", "3.14", "#", "1", "2021"])
+            ver = r.choice([v for v in digit_syms if 1 <= v <= 16])
+            n = r.choice([5, 5, 10, 15])
+            syms = [r.choice(digit_syms) for _ in range(8 * n // 5)]
+            prog = bytes(ref_from5(syms))
+            a = ref_segwit_encode(hrp, ver, prog)
+            if a is not None and not any(ch.isalpha() for ch in a):
+                found.append((hrp, ver, prog))
+        _LETTER_FREE = found
+    return list(_LETTER_FREE)
 
 
 def _corrupt(rng, s, k, alphabet):
